@@ -44,6 +44,28 @@ CLAIMS = {
         "mechanised; binary64 accumulation is compared bit-exactly with the model but the inequality is proved over Q.",
         COMMON_NOTE + "Modelled, not verified: LAPACK returns a valid SVD with non-increasing non-negative values.",
         "DESIGN.md §3 C09"),
+    "C14": (
+        "Coq proof (induction over grid length and column index of the symbolic pipeline words, arbitrary schedules) + exact word correspondence with the real pipelines under recording stubs + bit-exact time-matching correspondence",
+        "Machine-checked proof that, for both integrator orders, every schedule (several jumps, equal or different grid indices), "
+        "every grid length and every column j, the scheduled jump at grid index k occurs exactly once in the sequence of kernel "
+        "calls behind column j when k <= j and never otherwise, that it is placed after exactly k unitary steps, that columns "
+        "before k do not depend on the schedule, and (exact arithmetic) that a jump at k*dt matches grid point j*dt iff j = k for "
+        "grids of any length. The words are compared exactly with the real analog_tjm_1/2 run with recording stubs (real "
+        "has_scheduled_jump); the binary64 time-matching model is compared bit-exactly with has_scheduled_jump up to 10^6 steps. "
+        "PARTIAL: the numerical action of the operator (application, two-site merge/split, renormalisation) is covered by the "
+        "dense 'apply once at t_k' search only.",
+        COMMON_NOTE + "Assumes the state is determined by the word of kernel calls.",
+        "DESIGN.md §3 C14"),
+    "C15": (
+        "Coq proof (column/time bookkeeping by induction; grid length over Flocq's binary64 semantics) + bit-exact grid correspondence (PrimFloat vs NumPy) + word correspondence + all-solver search",
+        "Machine-checked proof that the pipelines write exactly one column per grid point in order, that column j is the state "
+        "after j steps, that with sampling off the single column is the state at the total time for every grid with >= 2 points, "
+        "and (PARTIAL: over Flocq's real-number model of binary64, 1 <= k <= 2^40, no underflow) that round(fl(fl(k*dt)/dt)) = k "
+        "so the grid has k+1 points. The PrimFloat grid model is compared bit for bit (length, first, second, last element) with "
+        "AnalogSimParams.times on a (k, dt) sweep; all four solvers are searched for wrong result lengths / values at the total time.",
+        COMMON_NOTE + "Axioms: the standard-library real-number axioms and classic (through Flocq) for C15_len_partial only. "
+        "The bridge PrimFloat ops = Flocq rounding is not proved (sweep).",
+        "DESIGN.md §3 C15"),
 }
 
 NOT_YET = "check not built yet in this round (planned in DESIGN.md §3); no claim is made"
